@@ -2002,9 +2002,20 @@ impl SctpInner {
 
         for dc in channels_to_process {
             if dc.negotiated {
-                dc.state
-                    .store(DataChannelState::Open as usize, Ordering::SeqCst);
-                dc.send_event(DataChannelEvent::Open);
+                // only a channel that is still waiting for the association: one the
+                // application has closed meanwhile stays closed (no Open after its Close)
+                if dc
+                    .state
+                    .compare_exchange(
+                        DataChannelState::Connecting as usize,
+                        DataChannelState::Open as usize,
+                        Ordering::SeqCst,
+                        Ordering::SeqCst,
+                    )
+                    .is_ok()
+                {
+                    dc.send_event(DataChannelEvent::Open);
+                }
             } else {
                 let state = dc.state.load(Ordering::SeqCst);
                 if state == DataChannelState::Connecting as usize
@@ -2445,9 +2456,20 @@ impl SctpInner {
 
         for dc in channels_to_process {
             if dc.negotiated {
-                dc.state
-                    .store(DataChannelState::Open as usize, Ordering::SeqCst);
-                dc.send_event(DataChannelEvent::Open);
+                // only a channel that is still waiting for the association: one the
+                // application has closed meanwhile stays closed (no Open after its Close)
+                if dc
+                    .state
+                    .compare_exchange(
+                        DataChannelState::Connecting as usize,
+                        DataChannelState::Open as usize,
+                        Ordering::SeqCst,
+                        Ordering::SeqCst,
+                    )
+                    .is_ok()
+                {
+                    dc.send_event(DataChannelEvent::Open);
+                }
             } else {
                 let state = dc.state.load(Ordering::SeqCst);
                 if state == DataChannelState::Connecting as usize
